@@ -12,7 +12,9 @@
 (*   "wrapc"    a chance node with the single outcome (weight c) is put    *)
 (*              above the node                                             *)
 (*   "wrapp"    a decision node of player pl with the single action        *)
-(*              "only" (infoset "wrap") is put above the node              *)
+(*              "only" is put above the node; its infoset name x.name is   *)
+(*              "wrap" or the name of an information set of the OTHER      *)
+(*              player (names are per player)                              *)
 (* kinds acting on the whole tree                                          *)
 (*   "strip"    every single-outcome chance node and every single-action   *)
 (*              decision node is removed                                   *)
@@ -57,7 +59,7 @@ XTree(t, idx, x) ==
   IN IF x.kind = "strip" /\ t.k # "T" /\ Len(t.kids) = 1 THEN kids2[1]
      ELSE IF x.kind = "wrapc" /\ here THEN [k |-> "C", ci |-> "none", kids |-> <<[w |-> x.c, t |-> self]>>]
      ELSE IF x.kind = "wrapp" /\ here
-          THEN [k |-> "P", pl |-> x.pl, info |-> "wrap", kids |-> <<[a |-> "only", t |-> self]>>]
+          THEN [k |-> "P", pl |-> x.pl, info |-> x.name, kids |-> <<[a |-> "only", t |-> self]>>]
      ELSE self
 
 Present(t, x) == XTree(t, 1, x)
